@@ -71,11 +71,10 @@ def run(c):
     fmc = bg.submit(c.tlc_must_pass, "msc", "MC_Semaphore", cfg=c.pick("MC_Semaphore_quick", "MC_Semaphore_thorough"),
                     workers=c.pick(2, 6), timeout=3000)
     rnd = random.Random(c.seed)
-    # (module, cfg, sample size or None = all)
-    plan = c.pick([("MC_SemContention", "MC_SemContention_quick", None), ("MC_SemScen", "MC_SemScen_q3", None),
-                   ("MC_SemScen", "MC_SemScen_q4", 500), ("MC_SemScen", "MC_SemScen_q5", 250)],
-                  [("MC_SemContention", "MC_SemContention_thorough", None), ("MC_SemScen", "MC_SemScen_q4", None),
-                   ("MC_SemScen", "MC_SemScen_q5", None), ("MC_SemScen", "MC_SemScen_t4", 4000)])
+    # (module, cfg, {script length: sample size}; lengths not named are taken completely)
+    plan = c.pick([("MC_SemContention", "MC_SemContention_quick", {}), ("MC_SemScen", "MC_SemScen_q345", {4: 500, 5: 250})],
+                  [("MC_SemContention", "MC_SemContention_thorough", {}), ("MC_SemScen", "MC_SemScen_q345", {}),
+                   ("MC_SemScen", "MC_SemScen_t4", {4: 4000})])
     scen = c.path("sem_scen.ndjson")
     enumerated = {}
     nscen = 0
@@ -87,13 +86,21 @@ def run(c):
         return open(part).readlines()
     with ThreadPoolExecutor(max_workers=4) as ex:
         parts = list(ex.map(enum, plan))
+    selected = {}
     with open(scen, "w") as out:
-        for (module, cfg, sample), lines in zip(plan, parts):
-            enumerated[cfg] = len(lines)
-            if sample and len(lines) > sample:
-                lines = rnd.sample(lines, sample)
-            out.writelines(lines)
-            nscen += len(lines)
+        for (module, cfg, samples), lines in zip(plan, parts):
+            by_len = {}
+            for ln in lines:
+                by_len.setdefault(ln.count('"fn"'), []).append(ln)
+            for k in sorted(by_len):
+                ls = by_len[k]
+                name = "%s/%d-step" % (cfg, k)
+                enumerated[name] = len(ls)
+                if samples.get(k) and len(ls) > samples[k]:
+                    ls = rnd.sample(ls, samples[k])
+                selected[name] = len(ls)
+                out.writelines(ls)
+                nscen += len(ls)
     c.log("TLC enumerated scripts %s; %d selected" % (enumerated, nscen))
     c.guard("scenarios", nscen)
     fbuild.result()
@@ -170,14 +177,14 @@ def run(c):
         states=mc.distinct, transitions=mc.generated,
         traces_validated_against_impl=r["scenarios"],
         trace_lines_validated=r["validated_lines"],
-        scripts_enumerated_by_tlc=enumerated, scenarios_run=nscen,
+        scripts_enumerated_by_tlc=enumerated, scripts_selected=selected, scenarios_run=nscen,
         rejections_first_run=len(r["rejections"]), rejections_not_reproduced=noise,
         settle_ms=SETTLE, slack_ms=SLACK,
         exhaustive=c.pick(False, False),
         rule="driver scripts of SemScenarios.tla (capacity (2,4)) and SemContention.tla (capacity (4,10), 2-3 blocked callers of different sizes); timeouts {30 ms, 5 s}; %s), each executed in real time on a "
              "real DataSemaphore (blocking calls in goroutines, %d ms settle time after each step, final Terminate), every trace "
              "validated by TLC against SemaphoreTrace.tla; Semaphore.tla itself model-checked (%s)" % (
-                 ", ".join("%s: %s of %d" % (cfg, "all" if not s or s >= enumerated[cfg] else s, enumerated[cfg]) for _, cfg, s in plan),
+                 ", ".join("%s: %d of %d" % (k, selected[k], enumerated[k]) for k in sorted(enumerated)),
                  SETTLE, c.pick("2 callers", "3 callers")),
         harness_stats=stats, samples=[head],
     ), assumptions=["real time: the host is assumed to run a woken goroutine within the settle time (%d ms) and within the slack (%d ms) "
